@@ -864,7 +864,11 @@ class mulgrid(object):
     def column_name(self, blockname):
         """Returns column name of block name."""
         if self.convention == 0: return blockname[0: 3]
-        elif self.convention == 1: return blockname[3: 5]
+        elif self.convention == 1:
+            name = blockname[3: 5]
+            # (block_name() may have replaced a blank with a zero- see fix_blockname():)
+            if name in self.column: return name
+            else: return unfix_blockname(blockname)[3: 5]
         elif self.convention == 2: return blockname[2: 5]
         elif self.convention == 3: return blockname[0: 3]
         else: return None
